@@ -67,6 +67,52 @@ func (c *core) getRetryConfig() *RetryConfig {
 	}
 }
 
+// doRedirects sends req and follows up to maxRedirects redirects. Without a cookie jar this is fasthttp's DoRedirects.
+// With a jar every hop is a request of its own: the cookies of an answer are stored for the host that sent it, and the
+// next hop carries the jar's cookies for ITS url (plus the cookies configured on client and request) - never those
+// that were looked up for the previous host.
+func (c *core) doRedirects(req *fasthttp.Request, resp *fasthttp.Response) error {
+	jar := c.client.cookieJar
+	if jar == nil {
+		return c.client.fasthttp.DoRedirects(req, resp, c.req.maxRedirects)
+	}
+
+	for redirects := 0; ; redirects++ {
+		if err := c.client.fasthttp.Do(req, resp); err != nil {
+			return err
+		}
+		jar.parseCookiesFromResp(req.URI().Host(), req.URI().Path(), resp)
+
+		if !fasthttp.StatusCodeIsRedirect(resp.StatusCode()) {
+			return nil
+		}
+		if redirects >= c.req.maxRedirects {
+			return fasthttp.ErrTooManyRedirects
+		}
+		location := resp.Header.Peek(fiber.HeaderLocation)
+		if len(location) == 0 {
+			return fasthttp.ErrMissingLocation
+		}
+
+		next := fasthttp.AcquireURI()
+		req.URI().CopyTo(next)
+		next.UpdateBytes(location)
+		req.SetRequestURI(next.String())
+		fasthttp.ReleaseURI(next)
+
+		req.Header.DelAllCookies()
+		jar.dumpCookiesToReq(req)
+		c.client.mu.RLock()
+		c.client.cookies.VisitAll(func(key, val string) {
+			req.Header.SetCookie(key, val)
+		})
+		c.client.mu.RUnlock()
+		c.req.cookies.VisitAll(func(key, val string) {
+			req.Header.SetCookie(key, val)
+		})
+	}
+}
+
 // execFunc is the core logic to send the request and receive the response.
 // It leverages the fasthttp client, optionally with retries or redirects.
 func (c *core) execFunc() (*Response, error) {
@@ -93,13 +139,13 @@ func (c *core) execFunc() (*Response, error) {
 			// Use an exponential backoff retry strategy.
 			err = retry.NewExponentialBackoff(*cfg).Retry(func() error {
 				if c.req.maxRedirects > 0 && (string(reqv.Header.Method()) == fiber.MethodGet || string(reqv.Header.Method()) == fiber.MethodHead) {
-					return c.client.fasthttp.DoRedirects(reqv, respv, c.req.maxRedirects)
+					return c.doRedirects(reqv, respv)
 				}
 				return c.client.fasthttp.Do(reqv, respv)
 			})
 		} else {
 			if c.req.maxRedirects > 0 && (string(reqv.Header.Method()) == fiber.MethodGet || string(reqv.Header.Method()) == fiber.MethodHead) {
-				err = c.client.fasthttp.DoRedirects(reqv, respv, c.req.maxRedirects)
+				err = c.doRedirects(reqv, respv)
 			} else {
 				err = c.client.fasthttp.Do(reqv, respv)
 			}
@@ -110,6 +156,9 @@ func (c *core) execFunc() (*Response, error) {
 				errCh <- err
 				return
 			}
+			// the redirect loop has filed the cookies of every answer under the host that sent it
+			resp.cookiesInJar = c.client.cookieJar != nil && c.req.maxRedirects > 0 &&
+				(string(reqv.Header.Method()) == fiber.MethodGet || string(reqv.Header.Method()) == fiber.MethodHead)
 			respv.CopyTo(resp.RawResponse)
 			errCh <- nil
 		}
